@@ -86,6 +86,11 @@ pub enum Fault {
     // commit
     DupKeyPair { ty: u8, key: u8 },
     DupKeyExisting(u16),
+    /// `PURGE <an element nothing refers to> CONFIRM "PURGE"` (plans cleanly) followed by a create
+    /// whose key conflict only shows at commit: the refused statement must not have erased anything
+    /// (the engine erases version rows of a purge; seeded change C17-4). PURGE is generated nowhere
+    /// else: a committed purge is outside what the version rules of this check model.
+    PurgeThenDupKey(u16, u16),
     UpsertMissTwice { ty: u8, key: u8 },
     CreateAndUpsertMiss { ty: u8, key: u8 },
     ForeignEndpoint(Ref),
@@ -1001,15 +1006,15 @@ pub fn resolve(stmt: &Stmt, m: &Model, w: &World, cfg: &Cfg) -> RStmt {
                 meta.what = "fault";
                 meta.fault = Some((name, phase));
                 meta.pass = match name {
-                    "unknown_type" | "missing_param_early" | "facet_range" | "dup_key_pair" | "dup_key_existing" => 0,
+                    "unknown_type" | "missing_param_early" | "facet_range" | "dup_key_pair" | "dup_key_existing" | "purge_then_dup_key" => 0,
                     "unknown_predicate" | "range_mismatch" | "dangling_upsert" | "upsert_miss_twice" | "create_and_upsert_miss" | "foreign_endpoint" => 1,
                     _ => 2,
                 };
-                meta.declares = matches!(name, "unknown_type" | "missing_param_early" | "missing_param_late" | "facet_range" | "unknown_field" | "type_mismatch" | "dup_key_pair" | "dup_key_existing" | "create_and_upsert_miss" | "foreign_actor");
+                meta.declares = matches!(name, "unknown_type" | "missing_param_early" | "missing_param_late" | "facet_range" | "unknown_field" | "type_mismatch" | "dup_key_pair" | "dup_key_existing" | "purge_then_dup_key" | "create_and_upsert_miss" | "foreign_actor");
                 if text.is_some() {
                     z.out.predicted_refusal = true;
                 }
-                if matches!(name, "dup_key_pair" | "upsert_miss_twice" | "create_and_upsert_miss" | "dup_handle") {
+                if matches!(name, "dup_key_pair" | "upsert_miss_twice" | "create_and_upsert_miss" | "dup_handle" | "purge_then_dup_key") {
                     meta.count = 2;
                 }
                 text
@@ -1137,6 +1142,28 @@ fn fault_text(z: &mut Rz<'_>, f: &Fault, i: usize) -> (&'static str, &'static st
             } else {
                 let c = keyed[pick_idx(*p, keyed.len())];
                 ("dup_key_existing", "commit", Some(format!("CREATE CONCEPT ?{h} {{ TYPE \"{}\" NAME \"india\" SET FIELDS {{key: \"{}\"}} }}", c.ty, c.key)))
+            }
+        }
+        Fault::PurgeThenDupKey(pv, pk) => {
+            let keyed: Vec<&CInfo> = z.m.concepts.iter().filter(|c| !c.key.is_empty() && TYPES.contains(&c.ty.as_str())).collect();
+            // victims: active concepts that are no endpoint of any proposition and not the key holder
+            let endpoints: std::collections::BTreeSet<&str> = z.m.props.iter().flat_map(|p| [p.s_key.as_str(), p.o_key.as_str()]).collect();
+            let victims: Vec<&CInfo> = z.m.concepts.iter().filter(|c| c.state == "active" && c.merged_into.is_empty() && !endpoints.contains(ref_key(&c.id).as_str())).collect();
+            if keyed.is_empty() || victims.is_empty() {
+                ("purge_then_dup_key", "commit", None)
+            } else {
+                let c = keyed[pick_idx(*pk, keyed.len())];
+                let others: Vec<&&CInfo> = victims.iter().filter(|v| v.id != c.id).collect();
+                if others.is_empty() {
+                    ("purge_then_dup_key", "commit", None)
+                } else {
+                    let v = others[pick_idx(*pv, others.len())];
+                    (
+                        "purge_then_dup_key",
+                        "commit",
+                        Some(format!("PURGE \"{}\" CONFIRM \"PURGE\"\n  CREATE CONCEPT ?{h} {{ TYPE \"{}\" NAME \"india\" SET FIELDS {{key: \"{}\"}} }}", v.id, c.ty, c.key)),
+                    )
+                }
             }
         }
         Fault::UpsertMissTwice { ty, key } => {
